@@ -297,6 +297,29 @@ def builtin_sweep(rep, rng, n):
             rep.property_failure(case, f"built-in {k}: pandas fails at {pd_fail}, polars at {pl_fail}", region=region)
 
 
+def anchoring_sweep(rep, rng, n):
+    """str_matches with top-level alternations on strings whose *tail* matches one alternative: the inputs on which
+    a prefix-anchored and a merely searched pattern differ"""
+    import polars as pl
+    import pandera as pa
+    import pandera.polars as pap
+    for _ in range(n):
+        alts = rng.sample(["a", "b", "x1", "cb", "1", "ab"], rng.randint(2, 3))
+        pat = "|".join(alts)
+        strings = [rng.choice(["z", "q", ""]) + rng.choice(alts) + rng.choice(["", "z"]) for _ in range(4)] + alts
+        case = {"mode": "builtin", "b": {"strMatches": pat}, "strings": strings}
+        with warnings.catch_warnings():
+            warnings.simplefilter("ignore")
+            out = pa.Check.str_matches(pat)(pd.Series(strings, dtype=object))
+            pd_fail = sorted(int(i) for i in out.failure_cases.index.tolist()) if out.failure_cases is not None else []
+            res = pap.Check.str_matches(pat)(pl.LazyFrame({"c": strings}).with_row_index("pos"), "c")
+            pl_fail = sorted(res.failure_cases.collect()["pos"].to_list())
+        rep.evaluations += 1
+        rep.count("anchoring:str_matches-alternation")
+        if pd_fail != pl_fail:
+            rep.property_failure(case, f"str_matches({pat!r}) on {strings}: pandas fails at {pd_fail}, polars at {pl_fail}")
+
+
 def run(tier, replay=None):
     rep = Report(PROP, tier)
     warm_up_backends()
@@ -308,6 +331,7 @@ def run(tier, replay=None):
         case = json.loads(open(replay).read())["case"]
         if case.get("mode") == "builtin":
             builtin_sweep(rep, rng, 300)
+            anchoring_sweep(rep, rng, 60)
         else:
             run_cases(rep, [case])
         return rep.finish(rule="replay")
@@ -315,6 +339,7 @@ def run(tier, replay=None):
     run_cases(rep, corpus_cases(PROP) + [gen_case(rng) for _ in range(n)])
     try:
         builtin_sweep(rep, rng, 300 if tier == "quick" else 8000)
+        anchoring_sweep(rep, rng, 60 if tier == "quick" else 1500)
     except ImportError:
         pass
     return rep.finish(
